@@ -87,6 +87,16 @@ Lemma census_projected_reads :
   projected_reads_ok ConcStateGen.lockfree_fns ConcStateGen.state_writes = true.
 Proof. vm_compute. reflexivity. Qed.
 
+(* the codec walk: every field a lock-free function reads is written by no lock-free function, and
+   by a locked function only with a classified origin *)
+Lemma census_walk_reads_frozen :
+  walk_reads_frozen ConcStateGen.lockfree_fns ConcStateGen.locked_fns ConcStateGen.lf_read_fields
+                    ConcStateGen.state_writes ConcStateGen.lk_field_writes = true.
+Proof. vm_compute. reflexivity. Qed.
+
+Lemma census_walk : walk_ok = true.
+Proof. vm_compute. reflexivity. Qed.
+
 Lemma census_holds : census_ok = true.
 Proof. vm_compute. reflexivity. Qed.
 
@@ -101,6 +111,48 @@ Proof.
   { unfold in_strs. apply existsb_exists. exists (w_fn w). split; [exact Hf | apply String.eqb_refl]. }
   rewrite E in H. exact H.
 Qed.
+
+Lemma in_strs_In x l : in_strs x l = true <-> In x l.
+Proof.
+  unfold in_strs. rewrite existsb_exists. split.
+  - intros (y & Hy & E). apply String.eqb_eq in E. subst y. exact Hy.
+  - intros H. exists x. split; [exact H | apply String.eqb_refl].
+Qed.
+
+(* the walk obligation in the direction one uses it: pick ANY write of the census to a field that some
+   lock-free function reads — its function is not a lock-free one, and if it is a locked one the
+   classification has an entry for it, which says "object of the critical section in progress" (or
+   RefSchema.To, by one of the four functions of the token tables on the placeholder it registered) *)
+Lemma walk_reads_are_frozen : forall w,
+  In w ConcStateGen.state_writes -> is_field_target (w_target w) = true ->
+  In (strip_field (w_target w)) ConcStateGen.lf_read_fields ->
+  ~ In (w_fn w) ConcStateGen.lockfree_fns /\
+  (In (w_fn w) ConcStateGen.locked_fns ->
+   exists o, In (w_fn w, strip_field (w_target w), o) ConcStateGen.lk_field_writes /\
+             lk_entry_ok (w_fn w, strip_field (w_target w), o) = true).
+Proof.
+  intros w Hw Hf Hr. pose proof census_walk_reads_frozen as H. unfold walk_reads_frozen in H.
+  rewrite forallb_forall in H. specialize (H w Hw).
+  apply in_strs_In in Hr. rewrite Hf, Hr in H. cbn [andb negb orb] in H.
+  apply andb_true_iff in H. destruct H as [Hlf Hlk]. split.
+  - intros Hin. apply in_strs_In in Hin. rewrite Hin in Hlf. discriminate.
+  - intros Hin. apply in_strs_In in Hin. rewrite Hin in Hlk. cbn [negb orb] in Hlk.
+    unfold lk_classified in Hlk. apply existsb_exists in Hlk. destruct Hlk as (e & He & Eq).
+    apply andb_true_iff in Eq. destruct Eq as [E1 E2]. apply String.eqb_eq in E1, E2.
+    destruct e as [[efn ef] eo]. unfold w_fn, w_target in E1, E2. cbn [fst snd] in E1, E2. subst efn ef.
+    exists eo. split; [exact He|].
+    pose proof census_lk_writes_to_fresh as F. unfold lk_writes_to_fresh in F.
+    rewrite forallb_forall in F. exact (F _ He).
+Qed.
+
+(* it discriminates: a write by a locked function that the classification does not list, a lazily
+   filled field written on the lock-free path *)
+Lemma walk_rejects_regressions :
+  walk_reads_frozen ConcStateGen.lockfree_fns ConcStateGen.locked_fns ConcStateGen.lf_read_fields
+                    (unclassified_write :: ConcStateGen.state_writes) ConcStateGen.lk_field_writes = false /\
+  walk_reads_frozen ConcStateGen.lockfree_fns ConcStateGen.locked_fns ConcStateGen.lf_read_fields
+                    (walk_memo_write :: ConcStateGen.state_writes) ConcStateGen.lk_field_writes = false.
+Proof. split; vm_compute; reflexivity. Qed.
 
 (* the checks reject the seeded regressions *)
 Lemma census_rejects_regressions :
